@@ -459,77 +459,126 @@ def rule_nested_intersect(ctx: Ctx, rule: str = "nested-intersect") -> None:
 
 
 def rule_nested_ctor(ctx: Ctx, rule: str = "nested-disjoint") -> None:
-    """C17: with force_empty_intersection every pair i<j of alternatives is tested; a shared behaviour (non-empty
-    conjunction) raises ValueError, nothing else does; alternatives are stored as copies."""
+    """C17: with force_empty_intersection every pair of distinct alternatives is tested (up to three alternatives are
+    followed); a shared behaviour (non-empty conjunction) raises ValueError and nothing else does; without the flag
+    nothing is tested; alternatives are stored as copies."""
     prog = ctx.prog
     fi = prog.func("NestedTermList.__init__")
     lst, flag = fi.params[1], fi.params[2]
-    for fv in (True, False):
-        ps = Sim(prog, fi, loop_iters=(0, 1, 2), assume=lambda v, fv=fv: const(fv) if v == ("param", flag) else None, max_paths=20000).paths()
-        tested = 0
+
+    def elem_index(v):
+        if isinstance(v, tuple) and len(v) == 4 and v[0] == "iter" and v[1] == ("param", lst):
+            return v[3]
+        if isinstance(v, tuple) and v and v[0] == "sub" and v[1] == ("param", lst) and is_const(v[2]):
+            return v[2][1]
+        return None
+
+    def pair_of(v):
+        """(i, j) if v is  alternative_i | alternative_j  (the conjunction), else None / 'bad'."""
+        if isinstance(v, tuple) and v and v[0] == "bin":
+            i, j = elem_index(v[2]), elem_index(v[3])
+            if i is None or j is None:
+                return None
+            return ("pair", v[1], tuple(sorted((i, j))))
+        return None
+
+    def empties(p):
+        out = []
+        for e in p.events:
+            if e["kind"] == "call" and e["callee"] == ".is_empty":
+                out.append(pair_of(e["recv"]))
+        return out
+
+    N = 3
+    want_pairs = {(0, 1), (0, 2), (1, 2)}
+
+    def full_paths(ps):
+        """paths on which every loop over the alternatives ran N times (the consistent 3-alternative run)."""
+        out = []
         for p in ps:
-            empt = [e for e in p.events if e["kind"] == "branch" and mentions(e["test"], lambda x: x[0] == "mcall" and x[1] == "is_empty")]
-            if not fv:
-                construct = "nested constructor: without force_empty_intersection nothing is tested or rejected"
-                if empt or p.terminal == "raise":
-                    ctx.violation(rule, fi.key, construct, "path %s tests/raises" % p.label(), where=fi.where)
-                continue
-            for e in empt:
-                tested += 1
-                t = e["test"]
-                neg = False
-                while t[0] == "un" and t[1] == "Not":
-                    neg = not neg
-                    t = t[2]
-                cand = t[2]
-                is_empty = (not e["taken"]) if neg else e["taken"]
-                okpair = cand[0] == "bin" and cand[1] == "BitOr" and all(x[0] == "item" and x[2] == 1 and x[1][0] == "iter" and x[1][1][0] == "call" and x[1][1][1] == "enumerate" and x[1][1][2] == (("param", lst),) for x in (cand[2], cand[3]))
-                construct = "nested constructor: the conjunction (|) of two alternatives is tested for emptiness"
-                if not okpair:
-                    ctx.violation(rule, fi.key, construct, "tests %s" % show(cand, 4), where=fi.where)
-                    continue
-                ctx.ok(rule, fi.key, construct, nontrivial=False)
-                last = e is empt[-1]
-                construct = "nested constructor: overlapping alternatives raise ValueError, disjoint ones do not"
-                if not is_empty and last:
-                    if p.terminal == "raise" and p.exc_cls == "ValueError":
-                        ctx.ok(rule, fi.key, construct + " (overlap)")
-                    else:
-                        ctx.violation(rule, fi.key, construct, "a non-empty conjunction leads to %s" % (p.exc_cls or "normal return"), where=fi.where)
-                if is_empty and last and p.terminal == "raise":
-                    ctx.violation(rule, fi.key, construct, "raises %s although the tested conjunction is empty" % p.exc_cls, where=fi.where)
-        if fv:
-            ctx.floor("pairwise emptiness tests", tested, 1)
-    # pair selection guard: j > i (or i < j / i != j)
-    construct = "nested constructor: every pair of distinct alternatives is tested (guard j > i)"
-    guards = []
-    for node in ast.walk(fi.node):
-        if isinstance(node, ast.If) and isinstance(node.test, ast.Compare) and len(node.test.ops) == 1:
-            l, r = node.test.left, node.test.comparators[0]
-            if isinstance(l, ast.Name) and isinstance(r, ast.Name) and any(isinstance(x, ast.Call) and norm(x).startswith("") and "is_empty" in norm(x) for x in ast.walk(node)):
-                guards.append(node.test)
-    if len(guards) != 1:
-        # no index guard at all means all ordered pairs incl. (i,i): an alternative always overlaps itself
-        has_test = any("is_empty" in norm(n_) for n_ in ast.walk(fi.node) if isinstance(n_, ast.Call))
-        if has_test:
-            ctx.violation(rule, fi.key, construct, "no index guard around the emptiness test (an alternative would be tested against itself)", where=fi.where)
-    else:
-        g = guards[0]
-        idx = _enumerate_indices(fi)
-        l, r, op = g.left.id, g.comparators[0].id, g.ops[0]
-        okg = False
-        if l in idx and r in idx and idx[l] != idx[r]:
-            okg = isinstance(op, (ast.Gt, ast.Lt, ast.NotEq))
-        (ctx.ok(rule, fi.key, construct) if okg else ctx.violation(rule, fi.key, construct, "guard is `%s`" % norm(g), where=fi.where))
-    # stored as copies
+            its = _loop_counts(p)
+            if its and all(c == N for c in its):
+                out.append(p)
+        return out
+
+    # 1. all pairs disjoint: every pair is tested, with the conjunction, nothing is raised
+    def all_empty(v):
+        if v == ("param", flag):
+            return const(True)
+        if isinstance(v, tuple) and v[0] == "mcall" and v[1] == "is_empty":
+            return const(True)
+        return None
+
+    ps = Sim(prog, fi, loop_iters=(0, 1, 2, N), assume=all_empty, max_paths=40000).paths()
+    fps = full_paths(ps)
+    construct = "nested constructor: every pair of distinct alternatives is tested for a shared behaviour"
+    if not fps:
+        ctx.cannot_decide(rule, fi.key, construct, "no path on which three alternatives are traversed")
+    for p in fps:
+        tested = empties(p)
+        if any(t is None for t in tested):
+            ctx.cannot_decide(rule, fi.key, construct, "an emptiness test is applied to something that is not a pair of alternatives")
+            continue
+        ops = {t[1] for t in tested}
+        pairs = {t[2] for t in tested}
+        if ops - {"BitOr"}:
+            ctx.violation(rule, fi.key, "nested constructor: the conjunction (|) of two alternatives is tested for emptiness", "pairs are combined with %s" % sorted(ops), where=fi.where)
+        elif any(i == j for (i, j) in pairs):
+            ctx.violation(rule, fi.key, construct, "an alternative is tested against itself (always overlapping)", where=fi.where)
+        elif not want_pairs <= pairs:
+            ctx.violation(rule, fi.key, construct, "with three alternatives only the pairs %s are tested; %s are not" % (sorted(pairs), sorted(want_pairs - pairs)), where=fi.where)
+        elif p.terminal == "raise":
+            ctx.violation(rule, fi.key, "nested constructor: disjoint alternatives are accepted", "raises %s although every tested conjunction is empty" % p.exc_cls, where=fi.where)
+        else:
+            ctx.ok(rule, fi.key, construct)
+    # 2. exactly one overlapping pair: ValueError, whichever pair it is
+    for bad in sorted(want_pairs):
+
+        def one_overlap(v, bad=bad):
+            if v == ("param", flag):
+                return const(True)
+            if isinstance(v, tuple) and v[0] == "mcall" and v[1] == "is_empty":
+                t = pair_of(v[2])
+                if t is not None:
+                    return const(t[2] != bad)
+            return None
+
+        # a path that raises stops early, so the loop counts are fixed to N instead of filtered afterwards
+        ps2 = [p for p in Sim(prog, fi, loop_iters=(N,), assume=one_overlap, max_paths=40000).paths()]
+        construct = "nested constructor: alternatives %d and %d sharing a behaviour raise ValueError" % bad
+        outs = {(p.terminal, p.exc_cls) for p in ps2}
+        if outs == {("raise", "ValueError")}:
+            ctx.ok(rule, fi.key, construct)
+        else:
+            ctx.violation(rule, fi.key, construct, "outcomes: %s" % sorted(map(str, outs)), where=fi.where)
+    # 3. without the flag nothing is tested or rejected
+    ps3 = Sim(prog, fi, loop_iters=(0, 1, 2), assume=lambda v: const(False) if v == ("param", flag) else None).paths()
+    construct = "nested constructor: without force_empty_intersection nothing is tested or rejected"
+    bad3 = [p for p in ps3 if p.terminal == "raise" or empties(p)]
+    (ctx.ok(rule, fi.key, construct) if not bad3 else ctx.violation(rule, fi.key, construct, "path %s tests / raises" % bad3[0].label(), where=fi.where))
+    # 4. stored as copies, in order
     construct = "nested constructor stores copies of the alternatives"
-    ps = [p for p in Sim(prog, fi, loop_iters=(1,), assume=lambda v: const(False) if v == ("param", flag) else None).paths() if p.terminal == "return"]
-    okc = bool(ps)
-    for p in ps:
-        apps = [e for e in p.events if e["kind"] == "call" and e["callee"] == ".append"]
-        if not (len(apps) == 1 and apps[0]["args"][0][0] == "mcall" and apps[0]["args"][0][1] == "copy" and apps[0]["args"][0][2][0] == "iter" and apps[0]["args"][0][2][1] == ("param", lst)):
+    ps4 = [p for p in Sim(prog, fi, loop_iters=(2,), assume=lambda v: const(False) if v == ("param", flag) else None).paths() if p.terminal == "return"]
+    okc = bool(ps4)
+    why = "no returning path"
+    for p in ps4:
+        stored = None
+        for e in p.events:
+            if e["kind"] == "store" and e["target"][0] == "attr" and e["target"][2] == "nested_termlist":
+                stored = e["value"]
+        apps = [e["args"][0] for e in p.events if e["kind"] == "call" and e["callee"] == ".append"]
+        items = None
+        if stored is not None and stored[0] == "listcomp":
+            elt, gens = stored[1], stored[2]
+            if len(gens) == 1 and gens[0][0] == ("param", lst) and not gens[0][1] and elt[0] == "mcall" and elt[1] == "copy" and elem_index(elt[2]) is not None:
+                items = "comprehension"
+        if items is None and apps:
+            if all(a[0] == "mcall" and a[1] == "copy" and elem_index(a[2]) is not None for a in apps) and [elem_index(a[2]) for a in apps] == list(range(len(apps))):
+                items = "loop"
+        if items is None:
             okc = False
-    (ctx.ok(rule, fi.key, construct) if okc else ctx.violation(rule, fi.key, construct, "alternatives are stored without copy()", where=fi.where))
+            why = "stored value %s / appended %s" % (show(stored, 3) if stored is not None else None, [show(a, 2) for a in apps])
+    (ctx.ok(rule, fi.key, construct) if okc else ctx.violation(rule, fi.key, construct, why, where=fi.where))
 
 
 def _enumerate_indices(fi: FuncInfo) -> Dict[str, int]:
